@@ -34,11 +34,29 @@ func isBoolType(t types.Type) bool {
 	return ok && b.Kind() == types.Bool
 }
 
+// isErrCtor: a call that always yields a non-nil error. The Wrap family of pkg/errors is NOT one: errors.Wrap(nil, ..)
+// is nil (see wrappedErr).
 func isErrCtor(t *Term) bool {
 	if t.Op != "call" {
 		return false
 	}
+	if wrappedErr(t) != nil {
+		return false
+	}
 	return strings.HasPrefix(t.Name, "errors.") || t.Name == "fmt.Errorf"
+}
+
+// wrappedErr: for errors.Wrap / Wrapf / WithMessage / WithMessagef / WithStack (err, ...) the wrapped error: the call is
+// nil exactly when that error is nil.
+func wrappedErr(t *Term) *Term {
+	if t.Op != "call" || len(t.Args) == 0 {
+		return nil
+	}
+	switch t.Name {
+	case "errors.Wrap", "errors.Wrapf", "errors.WithMessage", "errors.WithMessagef", "errors.WithStack":
+		return t.Args[0]
+	}
+	return nil
 }
 
 func (a *Analyzer) Summary(fn *ssa.Function) *summary {
@@ -251,6 +269,13 @@ func (a *Analyzer) fillSummary(s *summary, env map[ssa.Value]*Term, init Facts, 
 				okAtom = nil
 			} else if isErrCtor(rt) {
 				failing = true
+			} else if w := wrappedErr(rt); w != nil {
+				// nil exactly when the wrapped error is nil
+				if w.Key() == tNil.Key() {
+					okAtom = nil
+				} else {
+					okAtom = atomOf(Bin("==", w, tNil), a.P.InstrPos(ret))
+				}
 			} else {
 				okAtom = atomOf(Bin("==", rt, tNil), a.P.InstrPos(ret))
 			}
